@@ -8,7 +8,7 @@ def node_tok(i, mode="tun-router", pt=300, ka="-", st=300, claims=None, key=1, t
     """adv: the node advertises that other address as one of its own (advertise_addresses);
     hkf: the node has a lasting local fault in a late housekeeping step (a beacon file it cannot read): housekeep returns early there"""
     return "N.%d.%s.%d.%s.%d.%s.%d.%s.%s%s" % (i, mode, pt, ka, st, ";".join(claims) if claims else "-", key,
-                                                 "+".join(str(t) for t in trusted) if trusted else "-", algos, ".nat" if nat else (".hkf" if hkf else (".adv%d" % adv if adv else "")))
+                                                 "+".join(str(t) for t in trusted) if trusted else "-", algos, ".nat" if nat else (".hkf" if hkf else (".adv%s" % "+".join(str(a) for a in (adv if isinstance(adv, (list, tuple)) else [adv])) if adv else "")))
 
 
 def strip_hkerr(line, out):
